@@ -80,3 +80,37 @@ Theorem C10_udp_retransmission_same_client : forall l next addr port t t',
   snd (fst (udp_arrival l1 next1 addr port t')) = id1.
 Proof. exact udp_retransmission_same_client. Qed.
 Print Assumptions C10_udp_retransmission_same_client.
+
+(* ---- over histories.  For every state reachable from the empty one by a valid history of the operations on the request
+   state (as in C17_exactly_once), under any allocation failures:
+   - the duplicate cache is what the property calls "received from the same client association": entry i of client c's
+     cache refers to a live request that came from c with Identifier i;
+   - a request that is outstanding at a server is remembered in its client's cache under its Identifier -- so a
+     retransmission arriving while the original is still in flight meets that entry (C10_repeat: not registered, nothing
+     forwarded) instead of being forwarded a second time. *)
+From RSP Require Import BaseLemmas Keeps_proofs Refs_proofs Tight_proofs Reg_proofs Balance_proofs Slotinv_proofs Rqi_proofs Inv3_proofs.
+Local Open Scope N_scope.
+
+Theorem C10_cache_is_per_association : forall md5, (forall x, length (md5 x) = 16%nat) -> (forall x, wf_bytes (md5 x) = true) ->
+  forall rx cfg nclients nservers ops c i h, cfg_ok cfg nservers -> Forall (op_ok nclients nservers) ops ->
+  let st := fold_left (hstep md5 rx cfg) ops (init_state nclients nservers) in
+  entry st c i = Some h -> exists r, get_rq st h = Some r /\ rq_from r = Some c /\ N.to_nat (rq_rqid r) = i.
+Proof.
+  intros md5 L W rx cfg nc ns ops c i h Hc Ho st E.
+  assert (B : Bal nc ns st) by (apply (Bal_history md5 L W rx cfg nc ns Hc); [exact Ho | apply Bal_init]).
+  clearbody st. destruct B as (S & _ & Rg).
+  destruct (safe_no_dangling st S h ltac:(pose proof (entry_refs _ _ _ _ E); lia)) as (r & G & _).
+  exists r. split; [exact G | exact (Rg _ _ _ _ E G)].
+Qed.
+Print Assumptions C10_cache_is_per_association.
+
+Theorem C10_outstanding_is_remembered : forall md5, (forall x, length (md5 x) = 16%nat) -> (forall x, wf_bytes (md5 x) = true) ->
+  forall rx cfg nclients nservers ops s i h r c, cfg_ok cfg nservers -> Forall (op_ok nclients nservers) ops ->
+  let st := fold_left (hstep md5 rx cfg) ops (init_state nclients nservers) in
+  slot_of st s i = Some h -> get_rq st h = Some r -> rq_from r = Some c -> entry st c (N.to_nat (rq_rqid r)) = Some h.
+Proof.
+  intros md5 L W rx cfg nc ns ops s i h r c Hc Ho st E G F.
+  assert (Fu : Full nc ns st) by (apply (Full_history md5 L W rx cfg nc ns Hc); [exact Ho | apply Full_init]).
+  clearbody st. destruct Fu as (_ & _ & _ & I3). exact (I3 _ _ _ _ _ E G F).
+Qed.
+Print Assumptions C10_outstanding_is_remembered.
